@@ -546,7 +546,11 @@ fn json_mutations(orig: &Value, thorough: bool) -> Vec<(String, Vec<u8>)> {
 fn segment_menu() -> Vec<&'static str> {
     vec![
         "", "%00", "%2F", "..", "%2e%2e", "a%2Fb", "%C3%A9", "%FF", "%", "%zz", "ta", "testbed", "%20", "-", "_", "AS65000", "65000",
-        "4294967296", "-1", "0", "18446744073709551616", "1.5", "+1", "0x10", ";", "*", "%5C", "a%0Ab", "%E2%80%AE", "ca%00", "CA", "ca.", "ca%20",
+        "4294967296", "-1", "0", "18446744073709551616", "1.5", "+1", "0x10",
+        // integer edges: i32/u32/i64/u64 limits, and values that overflow only
+        // after a unit conversion (x1000, x1000000)
+        "2147483647", "2147483648", "4294967295", "9223372036854775807", "9223372036854775808", "-9223372036854775808", "18446744073709551615",
+        "9223372036854776", "-9223372036854776", "9223372036855", "18446744073709552", "253402300800", "-62135596801", ";", "*", "%5C", "a%0Ab", "%E2%80%AE", "ca%00", "CA", "ca.", "ca%20",
         "aaaaaaaaaaaaaaaaaaaaaaaaaaaaaaaaaaaaaaaaaaaaaaaaaaaaaaaaaaaaaaaaaaaaaaaaaaaaaaaaaaaaaaaaaaaaaaaaaaaaaaaaaaaaaaaaaaaaaaaaaaaaaaaaaaaaaaaaaaaaaaaaaaaaaaaaaaaaaaaaaaaaaaaaaaaaaaaaaaaaaaaaaaaaaaaaaaaaaaaaaaaaaaaaaaaaaaaaaaaaaaaaaaaaaaaaaaaaaaaaaaaaaaaaaaaaaaaaaaaaaaaaaaaaaaaaaaaaaaaaaaaaaaaaaaaaaaaaaaaaaaaaaaaaaaaaaaaaaaaaaaaaaa",
     ]
 }
@@ -818,15 +822,31 @@ pub fn run(tier: &Tier, args: &[String]) -> i32 {
                     if !route.path.contains(param) {
                         continue;
                     }
+                    let occurrences = route.path.matches(param).count();
                     for seg in segment_menu() {
                         let mut vals = ["ca", "kid", "parent", "AS65000", "ca", "1"];
                         vals[pi] = seg;
-                        let path = fill(route.path, vals[0], vals[1], vals[2], vals[3], vals[4], vals[5]);
-                        let body = route.body.and_then(|b| bodies.get(b)).map(|v| serde_json::to_vec(v).unwrap()).unwrap_or_default();
-                        cases.push((
-                            Case { part: "api-path".into(), target: target.clone(), mutation: format!("{param}={seg}") },
-                            Call { method: route.method.into(), path, bearer: Some("secret".into()), body, unix_user: None, authorization: None },
-                        ));
+                        let mut paths = vec![(format!("{param}={seg}"), fill(route.path, vals[0], vals[1], vals[2], vals[3], vals[4], vals[5]))];
+                        if occurrences > 1 {
+                            // also each occurrence on its own, the others valid
+                            for pos in 0..occurrences {
+                                let mut tpl = String::new();
+                                for (i, part) in route.path.split(param).enumerate() {
+                                    if i > 0 {
+                                        tpl.push_str(if i - 1 == pos { seg } else { "1" });
+                                    }
+                                    tpl.push_str(part);
+                                }
+                                paths.push((format!("{param}#{pos}={seg}"), fill(&tpl, "ca", "kid", "parent", "AS65000", "ca", "1")));
+                            }
+                        }
+                        for (mutation, path) in paths {
+                            let body = route.body.and_then(|b| bodies.get(b)).map(|v| serde_json::to_vec(v).unwrap()).unwrap_or_default();
+                            cases.push((
+                                Case { part: "api-path".into(), target: target.clone(), mutation },
+                                Call { method: route.method.into(), path, bearer: Some("secret".into()), body, unix_user: None, authorization: None },
+                            ));
+                        }
                     }
                 }
             }
